@@ -55,5 +55,4 @@ def check(tier):
 
 
 def replay(payload):
-    print("C17 replays by re-running the check with the same VERIF_SEED; event:", json.dumps(payload.get("event"))[:900])
-    return 2
+    return core.replay_by_rerun("C17", check, payload, keys=("plan", "doc", "case"))
